@@ -21,7 +21,7 @@ def _vtable_without_key_function(m):
     return False
 
 
-def build_pair(cx, m1, m2, cfg, full_debug=True, names=("v1", "v2"), **kw):
+def build_pair(cx, m1, m2, cfg, full_debug=True, names=("v1", "v2"), sonames=None, **kw):
     cfg = dict(cfg)
     if full_debug and cfg.get("cc") == "clang":
         cfg["cflags"] = list(cfg.get("cflags", [])) + ["-fstandalone-debug"]
@@ -31,8 +31,11 @@ def build_pair(cx, m1, m2, cfg, full_debug=True, names=("v1", "v2"), **kw):
         cfg["cflags"] = list(cfg.get("cflags", [])) + ["-femit-class-debug-always"]
     d = cx.dir()
     try:
-        b1 = cbuild.compile_model(m1, cfg, os.path.join(d, names[0]), **kw)
-        b2 = cbuild.compile_model(m2, cfg, os.path.join(d, names[1]), **kw)
+        c1, c2 = dict(cfg), dict(cfg)
+        if sonames:
+            c1["soname"], c2["soname"] = sonames
+        b1 = cbuild.compile_model(m1, c1, os.path.join(d, names[0]), **kw)
+        b2 = cbuild.compile_model(m2, c2, os.path.join(d, names[1]), **kw)
     except cbuild.CompileError as e:
         cx.cls("compile-error")
         cx.extra["compile_error:" + str(e)[:60]] += 0
@@ -71,3 +74,51 @@ def entries(rep, *keys):
     for k in keys:
         out += rep.sections.get(k, {"entries": []})["entries"]
     return out
+
+
+# --------------------------------------------------------------------------
+# the recorded "masked" defect (known_findings.json: C05, C13): a local change that categorize_harmful_diff_node gives no
+# category (e.g. a data member whose type changes without any size/offset change) is reported only as long as no harmless
+# category is propagated to one of its ancestors; as soon as a sibling/child carries a harmless category (top-level cv
+# change of a parameter, size-preserving union change, access change ...) the ancestor's category set is non-empty and
+# holds nothing that is allowed by default, and diff::is_filtered_out drops the whole sub-tree.
+
+HARMLESS_CATS = {"ACCESS_CHANGE_CATEGORY", "COMPATIBLE_TYPE_CHANGE_CATEGORY", "HARMLESS_DECL_NAME_CHANGE_CATEGORY",
+                 "NON_VIRT_MEM_FUN_CHANGE_CATEGORY", "STATIC_DATA_MEMBER_CHANGE_CATEGORY", "HARMLESS_ENUM_CHANGE_CATEGORY",
+                 "HARMLESS_SYMBOL_ALIAS_CHANGE_CATEGORY", "HARMLESS_UNION_CHANGE_CATEGORY",
+                 "HARMLESS_DATA_MEMBER_CHANGE_CATEGORY", "TYPE_DECL_ONLY_DEF_CHANGE_CATEGORY",
+                 "FN_PARM_TYPE_TOP_CV_CHANGE_CATEGORY", "FN_PARM_TYPE_CV_CHANGE_CATEGORY", "FN_RETURN_TYPE_CV_CHANGE_CATEGORY",
+                 "VAR_TYPE_CV_CHANGE_CATEGORY", "VOID_PTR_TO_PTR_CHANGE_CATEGORY", "BENIGN_INFINITE_ARRAY_CHANGE_CATEGORY"}
+_NODE = re.compile(r"^( *)(\w+)\[(.*)\]$")
+
+
+def diff_tree(text):
+    """Parse `abidiff --dump-diff-tree` (stderr) into [(indent, kind, subjects, {categories})]."""
+    nodes = []
+    lines = text.splitlines()
+    for k, l in enumerate(lines):
+        m = _NODE.match(l)
+        if not m or k + 2 >= len(lines) or lines[k + 1].strip() != "{":
+            continue
+        c = lines[k + 2].strip()
+        if not c.startswith("category:"):
+            continue
+        nodes.append((len(m.group(1)), m.group(2), m.group(3), set(x.strip() for x in c[9:].split("|"))))
+    return nodes
+
+
+def only_harmless_categories_in_tree(cx, b1, b2, opts=()):
+    """True when the tool's own diff tree carries at least one harmless category and not a single category outside the
+    harmless set (no SIZE_OR_OFFSET / VIRTUAL_MEMBER / FN_PARM_ADD_REMOVE / SUPPRESSED / PRIVATE_TYPE ... anywhere), and
+    the default reporter does show a change once harmless changes are allowed (--harmless)."""
+    t = abidiff(cx, b1, b2, list(opts) + ["--dump-diff-tree"])
+    if cbuild.crashed(t):
+        return False
+    cats = set()
+    for ind, kind, subj, cs in diff_tree(t.etext()):
+        cats |= cs
+    cats -= {"NO_CHANGE_CATEGORY", "REDUNDANT_CATEGORY"}
+    if not cats or not cats <= HARMLESS_CATS:
+        return False
+    h = abidiff(cx, b1, b2, list(opts) + ["--harmless"])
+    return not cbuild.crashed(h) and bool(h.rc & R.STATUS_CHANGE) and not h.rc & R.STATUS_ERROR
